@@ -1,3 +1,252 @@
-import Verif.C19.Model
+import Verif.C19.Layout
+/-!
+# C19 — property theorems
+
+"For every struct type, structlayout reports the field offsets, sizes, alignments and padding
+that the Go compiler uses on the target architecture, covering the struct's full size without
+gaps or overlaps. structlayout-optimize outputs a permutation of the input fields that is
+itself a valid layout and whose padded size is never larger than the original's."
+
+All statements are over the model in `Model.lean` (amd64), for ALL types of the grammar
+`Ty` (basic kinds, pointer-shaped kinds, named/alias types, arrays of any length, structs of
+any nesting, empty structs) resp. ALL record lists. Helper lemmas: Lemmas.lean (arithmetic,
+type well-formedness, gcsizes = gc), Optimize.lean (pad / sort), Layout.lean (`sizes`).
+-/
 namespace Verif.C19
+
+/-! ## Part 1: go/gcsizes implements the compiler's rules -/
+
+/-- Every type of the grammar has, under the compiler's rules, an alignment in {1,2,4,8}
+that divides its size. (This discharges, for all Go types of the grammar, the hypotheses
+"alignments are powers of two" and "sizes are multiples of alignments" used below.) -/
+theorem types_wellformed (t : Ty) : IsAl (gcAlignof t) ∧ gcAlignof t ∣ gcSizeof t := gc_wf t
+
+example : IsAl (gcAlignof (.struct (.cons "a" (.prim .i8) (.cons "b" (.prim .c128) .nil)))) ∧
+    gcSizeof (.struct (.cons "a" (.prim .i8) (.cons "b" (.prim .c128) .nil))) = 24 := by
+  decide
+
+/-- gcsizes.Sizeof and gcsizes.Alignof agree with the compiler's rules for every type. -/
+theorem gcsizes_eq_gc (t : Ty) : gcsSizeof t = gcSizeof t ∧ gcsAlignof t = gcAlignof t := gcs_eq t
+
+/-- gcsizes.Offsetsof agrees with the compiler's field offsets for every field list. -/
+theorem gcsizes_offsets_eq_gc (fs : Fields) : gcsOffsetsof fs = gcOffsetsof fs := by
+  unfold gcsOffsetsof gcOffsetsof
+  rw [gcsOffsets_eq, gcsInfos_eq]
+
+-- non-vacuity: complex64 after int32 (offset 4, size 12, align 4), a trailing zero-size array
+example : gcsOffsetsof (.cons "a" (.prim .i32) (.cons "b" (.prim .c64) .nil)) = [0, 4] ∧
+    gcsSizeof (.struct (.cons "a" (.prim .i32) (.cons "b" (.prim .c64) .nil))) = 12 ∧
+    gcsSizeof (.struct (.cons "a" (.prim .i64) (.cons "z" (.array 0 (.prim .i64)) .nil))) = 16 := by
+  decide
+
+/-! ## Part 2: structlayout's records are a valid layout of the compiler's size -/
+
+theorem layout_block (T : String) (fs : Fields) (h : fs ≠ .nil) :
+    Block [T] 0 (gcSizeof (.struct fs)) (gcAlignof (.struct fs)) (layout T fs) ∧ layout T fs ≠ [] := by
+  have hn : ¬ fs.isNil = true := fun hh => h ((Fields.isNil_iff fs).mp hh)
+  have := layField_spec (.struct fs) [T] 0 (.struct fs) rfl rfl (Nat.dvd_zero _)
+  simp only [layField, hn, Nat.zero_add, (gcs_eq (.struct fs)).1, (gcs_eq (.struct fs)).2] at this
+  simp only [layout, laySizes, hn]
+  exact ⟨this.1, this.2.1⟩
+
+/-- **structlayout covers the struct's full size without gaps or overlaps**: for every struct
+type, the records (fields and paddings) printed by `structlayout` tile `[0, Sizeof T)`, where
+`Sizeof` is the compiler's size. -/
+theorem layout_tiles (T : String) (fs : Fields) : Tiles 0 (gcSizeof (.struct fs)) (layout T fs) := by
+  by_cases h : fs = .nil
+  · subst h
+    simp only [layout, Fields.isNil, if_true, Tiles]
+    decide
+  · exact (layout_block T fs h).1.tiles
+
+/-- For every struct type the records are a valid layout: every field record starts at a
+multiple of its (positive) alignment, every padding record is non-empty, every alignment
+divides the struct's size; and the layout is roomy (a field's size is a multiple of its
+alignment or the field is followed by padding up to such a multiple). -/
+theorem layout_fields_aligned (T : String) (fs : Fields) :
+    ValidLayout (layout T fs) (gcSizeof (.struct fs)) ∧ Roomy (layout T fs) ∧
+    (∀ r ∈ layout T fs, r.pad = false → IsAl r.align ∧ [T] <+: r.name) := by
+  by_cases h : fs = .nil
+  · subst h
+    have : layout T .nil = [] := by simp [layout, Fields.isNil]
+    rw [this]
+    exact ⟨⟨by simp only [Tiles]; decide, by intro r hr; simp at hr, by intro r hr; simp at hr⟩, trivial,
+      by intro r hr; simp at hr⟩
+  · have hb := (layout_block T fs h).1
+    have hw := gc_wf (.struct fs)
+    refine ⟨⟨hb.tiles, hb.well, fun r hr hp => Nat.dvd_trans (hb.aligns r hr hp) hw.2⟩, hb.roomy, ?_⟩
+    intro r hr hp
+    refine ⟨?_, hb.names r hr hp⟩
+    have hd := hb.aligns r hr hp
+    have hpos := ((hb.well r hr).1 hp).1
+    have h8 : gcAlignof (.struct fs) ∣ 8 := by
+      rcases hw.1 with h | h | h | h <;> rw [h] <;> decide
+    have hd8 : r.align ∣ 8 := Nat.dvd_trans hd h8
+    have hle : r.align ≤ 8 := Nat.le_of_dvd (by omega) hd8
+    have key : ∀ d, d < 9 → 0 < d → d ∣ 8 → IsAl d := by unfold IsAl; decide
+    exact key r.align (by omega) hpos hd8
+
+-- non-vacuity: nested struct with tail padding, trailing zero-size field
+example : layout "T" (.cons "p" (.prim .i64) (.cons "q" (.struct (.cons "x" (.prim .i64) (.cons "y" (.prim .i8) .nil)))
+      (.cons "z" (.struct .nil) .nil))) =
+    [⟨["T", "p"], 0, 8, 8, 8, false⟩, ⟨["T", "q", "x"], 8, 16, 8, 8, false⟩, ⟨["T", "q", "y"], 16, 17, 1, 1, false⟩,
+     ⟨[], 17, 24, 7, 0, true⟩, ⟨["T", "z"], 24, 25, 1, 1, false⟩, ⟨[], 25, 32, 7, 0, true⟩] := by
+  decide
+
+/-! ## Part 3: structlayout-optimize -/
+
+/-- What structlayout-optimize may assume of its input (all of it holds for structlayout's
+output of any struct type, `layout_is_good_input`): a valid layout of `size` bytes whose
+alignments are powers of two and which is roomy. -/
+structure GoodInput (input : List Rec) (size : Nat) : Prop where
+  valid : ValidLayout input size
+  pow2 : ∀ r ∈ input, r.pad = false → Pow2 r.align
+  roomy : Roomy input
+
+theorem layout_is_good_input (T : String) (fs : Fields) : GoodInput (layout T fs) (gcSizeof (.struct fs)) := by
+  obtain ⟨v, r, a⟩ := layout_fields_aligned T fs
+  exact ⟨v, fun x hx hp => (a x hx hp).1.pow2, r⟩
+
+/-- A layout in which every field's size is a multiple of its alignment is roomy. -/
+theorem roomy_of_dvd (l : List Rec) (h : ∀ r ∈ l, r.pad = false → r.align ∣ r.size) : Roomy l := by
+  induction l with
+  | nil => trivial
+  | cons r l ih =>
+    exact ⟨fun hp => Or.inl (h r (by simp) hp), ih (fun x hx => h x (by simp [hx]))⟩
+
+theorem allFields_fieldsOf (input : List Rec) (hpos : ∀ r ∈ input, r.pad = false → 0 < r.align) :
+    AllFields (fieldsOf input) := by
+  intro f hf
+  simp only [fieldsOf, List.mem_filter, Bool.not_eq_eq_eq_not, Bool.not_true] at hf
+  exact ⟨hf.2, hpos f hf.1 hf.2⟩
+
+theorem optimizeMain_true (input : List Rec) :
+    optimizeMain true input = pad (optimize (fieldsOf input)) := by
+  unfold optimizeMain
+  cases input with
+  | nil => simp [fieldsOf, optimize, pad]
+  | cons x l => simp [fieldsOf]
+
+/-- without `-r`, the fields are first combined per top-level field. -/
+theorem optimizeMain_false (input : List Rec) :
+    optimizeMain false input = optimizeMain true (combine input) := by
+  rw [optimizeMain_true]
+  unfold optimizeMain
+  cases input with
+  | nil => simp [combine, fieldsOf, optimize, pad]
+  | cons x l => simp [fieldsOf]
+
+theorem fieldsOf_allFields (l : List Rec) (h : AllFields l) : fieldsOf l = l := by
+  simp only [fieldsOf, List.filter_eq_self]
+  intro f hf
+  simp [(h f hf).1]
+
+/-- facts about `pad (optimize fields)` -/
+theorem pad_optimize_spec (fields : List Rec) (h : AllFields fields) (hp : ∀ f ∈ fields, Pow2 f.align) :
+    ValidLayout (pad (optimize fields)) (total (pad (optimize fields))) ∧
+    ((fieldsOf (pad (optimize fields))).map Rec.key).Perm (fields.map Rec.key) ∧
+    total (pad (optimize fields)) ≤ roundUp (rsum fields) (padAlignment fields) := by
+  have hperm := optimize_perm_list fields
+  have hmem : ∀ f, f ∈ optimize fields → f ∈ fields := fun f hf => hperm.mem_iff.mp hf
+  by_cases hnil : optimize fields = []
+  · have : fields = [] := by
+      have := hperm.length_eq; rw [hnil] at this
+      exact List.length_eq_zero_iff.mp this.symm
+    subst this
+    simp only [hnil, pad]
+    refine ⟨⟨rfl, by intro r hr; simp at hr, by intro r hr; simp at hr⟩, by simp [fieldsOf], by simp [total]⟩
+  · have h' : AllFields (optimize fields) := fun f hf => h f (hmem f hf)
+    have hp' : ∀ f ∈ optimize fields, Pow2 f.align := fun f hf => hp f (hmem f hf)
+    obtain ⟨t, w, k, tot⟩ := pad_spec (optimize fields) hnil h' hp'
+    rw [tot]
+    refine ⟨⟨t, w, ?_⟩, ?_, ?_⟩
+    · intro r hr hpad
+      have hrk : r.key ∈ (fieldsOf (pad (optimize fields))).map Rec.key :=
+        List.mem_map.mpr ⟨r, by simp [fieldsOf, hr, hpad], rfl⟩
+      rw [k] at hrk
+      obtain ⟨f, hf, hfk⟩ := List.mem_map.mp hrk
+      have hal : f.align = r.align := by
+        have := congrArg (fun x => x.2.2) hfk
+        simpa [Rec.key] using this
+      rw [← hal]
+      exact Nat.dvd_trans (dvd_padAlignment _ hp' f hf) (roundUp_dvd _ _)
+    · rw [k]; exact hperm.map _
+    · unfold padSize
+      rw [padAlignment_perm hperm hp']
+      exact roundUp_mono _ (optEnd_optimize_le fields h hp)
+
+/-- **structlayout-optimize -r outputs a permutation of the input fields**: the non-padding
+records of the output are, as (name, size, alignment) triples, a permutation of those of the
+input. -/
+theorem optimize_perm (input : List Rec) (hp : ∀ r ∈ input, r.pad = false → Pow2 r.align) :
+    ((fieldsOf (optimizeMain true input)).map Rec.key).Perm ((fieldsOf input).map Rec.key) := by
+  rw [optimizeMain_true]
+  have ha := allFields_fieldsOf input (fun r hr hpad => (hp r hr hpad).pos)
+  exact (pad_optimize_spec (fieldsOf input) ha (by
+    intro f hf
+    simp only [fieldsOf, List.mem_filter, Bool.not_eq_eq_eq_not, Bool.not_true] at hf
+    exact hp f hf.1 hf.2)).2.1
+
+/-- **… that is itself a valid layout**: the output tiles `[0, its size)`, every field is at a
+multiple of its alignment, paddings are non-empty and the size is a multiple of every
+field's alignment. -/
+theorem optimize_valid (input : List Rec) (hp : ∀ r ∈ input, r.pad = false → Pow2 r.align) :
+    ValidLayout (optimizeMain true input) (total (optimizeMain true input)) := by
+  rw [optimizeMain_true]
+  have ha := allFields_fieldsOf input (fun r hr hpad => (hp r hr hpad).pos)
+  exact (pad_optimize_spec (fieldsOf input) ha (by
+    intro f hf
+    simp only [fieldsOf, List.mem_filter, Bool.not_eq_eq_eq_not, Bool.not_true] at hf
+    exact hp f hf.1 hf.2)).1
+
+/-- **… whose padded size is never larger than the original's**: for every good input
+(valid layout of `size` bytes, power-of-two alignments, roomy), the output of
+`structlayout-optimize -r` is at most `size` bytes. Sorting by alignment (descending) never
+grows a struct. -/
+theorem optimize_not_larger (input : List Rec) (size : Nat) (h : GoodInput input size) :
+    total (optimizeMain true input) ≤ size := by
+  rw [optimizeMain_true]
+  have ha := allFields_fieldsOf input (fun r hr hpad => (h.pow2 r hr hpad).pos)
+  have hp : ∀ f ∈ fieldsOf input, Pow2 f.align := by
+    intro f hf
+    simp only [fieldsOf, List.mem_filter, Bool.not_eq_eq_eq_not, Bool.not_true] at hf
+    exact h.pow2 f hf.1 hf.2
+  refine Nat.le_trans (pad_optimize_spec (fieldsOf input) ha hp).2.2 ?_
+  have hfit := rsum_le_of_roomy input 0 h.valid.tiles h.valid.well h.roomy
+  apply roundUp_min (padAlignment_pos _ hp)
+  · -- the maximal alignment divides the original size
+    rcases (by
+      have att : ∀ (l : List Rec) (m : Nat),
+          l.foldl (fun m f => if f.align > m then f.align else m) m = m ∨
+          ∃ f ∈ l, f.align = l.foldl (fun m f => if f.align > m then f.align else m) m := by
+        intro l
+        induction l with
+        | nil => intro m; simp
+        | cons x r ih =>
+          intro m
+          simp only [List.foldl_cons]
+          rcases ih (if x.align > m then x.align else m) with h | ⟨f, hf, he⟩
+          · by_cases hx : x.align > m
+            · right; exact ⟨x, by simp, by rw [h]; simp [hx]⟩
+            · left; rw [h]; simp [hx]
+          · right; exact ⟨f, by simp [hf], he⟩
+      exact att (fieldsOf input) 1) with h1 | ⟨f, hf, he⟩
+    · unfold padAlignment; rw [h1]; exact Nat.one_dvd _
+    · unfold padAlignment; rw [← he]
+      simp only [fieldsOf, List.mem_filter, Bool.not_eq_eq_eq_not, Bool.not_true] at hf
+      exact h.valid.size_aligned f hf.1 hf.2
+  · omega
+
+/-- the same under the simpler hypothesis that sizes are multiples of alignments -/
+theorem optimize_not_larger_of_dvd (input : List Rec) (size : Nat) (hv : ValidLayout input size)
+    (hp : ∀ r ∈ input, r.pad = false → Pow2 r.align) (hd : ∀ r ∈ input, r.pad = false → r.align ∣ r.size) :
+    total (optimizeMain true input) ≤ size :=
+  optimize_not_larger input size ⟨hv, hp, roomy_of_dvd input hd⟩
+
+/-- `structlayout -json T | structlayout-optimize -r`, for every struct type: the result is
+never larger than the struct (compiler's size). -/
+theorem optimize_r_layout_not_larger (T : String) (fs : Fields) :
+    total (optimizeMain true (layout T fs)) ≤ gcSizeof (.struct fs) :=
+  optimize_not_larger _ _ (layout_is_good_input T fs)
+
 end Verif.C19
